@@ -1,5 +1,6 @@
 import MioModel.Lemmas.Net
 import MioModel.Props.C09
+import MioModel.Accept
 /-! # C18 — Closed resources release their OS socket; stopped nodes release their threads
 
 The register of a resource (`Arc<Register>`: it owns the socket and deregisters it from the poll in
@@ -86,5 +87,47 @@ theorem stopped_node_releases_threads (mode : Mio.Node.Mode) (c : Nat) (n : Mio.
    by
      obtain ⟨acts, n', h1, h2, h3, _⟩ := Mio.C09.listener_returns mode c n h hr hst
      exact ⟨acts, n', h1, h2, h3⟩⟩
+
+/-! ## the accept loop gives the thread back (model M2a)
+
+A network step of the node model (and `pollLocal` of M5) is one call of `Local::accept`; the thread
+reaches its next look at the `running` flag only if that call returns. -/
+section accept
+open Mio.Accept
+
+/-- the loop leaves at the first `WouldBlock` *or error* answer, having made exactly one `accept()` call
+per answer up to there: whatever the kernel would answer afterwards (the same error again, for ever, as
+with an exhausted descriptor table) is never asked for -/
+theorem accept_loop_ends_at_first_stop (pre post : List AAns) (stop : AAns)
+    (hpre : ∀ a ∈ pre, isStop a = false) (hstop : isStop stop = true) :
+    acceptLoop (pre ++ stop :: post) = ⟨peers pre, pre.length + 1, true⟩ := by
+  induction pre with
+  | nil => cases stop <;> simp_all [acceptLoop, isStop, peers]
+  | cons a pre ih =>
+    have ih' := ih (fun x hx => hpre x (List.mem_cons_of_mem _ hx))
+    have ha := hpre a (List.mem_cons_self ..)
+    cases a with
+    | conn p => simp [acceptLoop, ih', peers]
+    | interrupted => simp [acceptLoop, ih', peers]
+    | wouldBlock => simp [isStop] at ha
+    | error => simp [isStop] at ha
+
+/-- every connection the kernel handed over before that point reaches the callback once, in order -/
+theorem accept_loop_hands_over_each_connection (ans : List AAns) :
+    (acceptLoop ans).accepted = peers (ans.take (acceptLoop ans).consumed) ∧
+    (acceptLoop ans).consumed ≤ ans.length := by
+  induction ans with
+  | nil => simp [acceptLoop, peers]
+  | cons a rest ih =>
+    cases a with
+    | conn p => simp [acceptLoop, peers, ih.1, ih.2]
+    | interrupted => simp [acceptLoop, peers, ih.1, ih.2]
+    | wouldBlock => simp [acceptLoop, peers]
+    | error => simp [acceptLoop, peers]
+
+/-! Non-vacuity: one connection, an interrupted call, then EMFILE for ever (three shown). -/
+example : acceptLoop [.conn 7, .interrupted, .error, .error, .error] = ⟨[7], 3, true⟩ := rfl
+
+end accept
 
 end Mio.C18
